@@ -290,3 +290,73 @@ pub fn random_code(rng: &mut Stream, k: usize, r: usize, tail: Tail, min_row_wei
     }
     h
 }
+
+/// Basis of the null space of `h` (vectors c with H c = 0).
+pub fn nullspace(h: &BitMat) -> Vec<Vec<u8>> {
+    let (r, c) = (h.r, h.c);
+    let mut m = h.a.clone();
+    let mut piv_cols = Vec::new();
+    let mut rank = 0;
+    for col in 0..c {
+        if rank == r {
+            break;
+        }
+        if let Some(p) = (rank..r).find(|&i| m[i][col] == 1) {
+            m.swap(rank, p);
+            for i in 0..r {
+                if i != rank && m[i][col] == 1 {
+                    for j in 0..c {
+                        m[i][j] ^= m[rank][j];
+                    }
+                }
+            }
+            piv_cols.push(col);
+            rank += 1;
+        }
+    }
+    let free: Vec<usize> = (0..c).filter(|j| !piv_cols.contains(j)).collect();
+    let mut basis = Vec::new();
+    for &f in &free {
+        let mut v = vec![0u8; c];
+        v[f] = 1;
+        for (i, &pc) in piv_cols.iter().enumerate() {
+            v[pc] = m[i][f];
+        }
+        basis.push(v);
+    }
+    basis
+}
+
+/// Random element of the code with parity-check matrix `h`.
+pub fn random_codeword(rng: &mut Stream, h: &BitMat) -> Vec<u8> {
+    let mut c = vec![0u8; h.c];
+    for b in nullspace(h) {
+        if rng.chance(1, 2) {
+            for (x, y) in c.iter_mut().zip(b.iter()) {
+                *x ^= *y;
+            }
+        }
+    }
+    c
+}
+
+/// Random sparse-ish matrix for decoder histories: every row has weight >= 2; columns may
+/// have weight 0 or 1.
+pub fn random_decoder_matrix(rng: &mut Stream, rows: usize, cols: usize) -> BitMat {
+    let mut h = BitMat::zeros(rows, cols);
+    let density = 15 + rng.below(40);
+    for i in 0..rows {
+        for j in 0..cols {
+            if rng.below(100) < density {
+                h.a[i][j] = 1;
+            }
+        }
+        let mut guard = 0;
+        while h.row_weight(i) < 2 && guard < 200 {
+            let j = rng.below(cols as u64) as usize;
+            h.a[i][j] = 1;
+            guard += 1;
+        }
+    }
+    h
+}
